@@ -342,4 +342,9 @@ def estimate_stats(voltages, stats_calc_num_samples=10000):
     data_sigma = xp.std(voltages[:calc_len])
     data_mean = xp.mean(voltages[:calc_len])
     
+    # Rounding in the mean can leave a deviation of a few ulps for constant 
+    # data, which has exactly zero variance
+    if xp.ptp(voltages[:calc_len]) == 0:
+        data_sigma = 0 * data_sigma
+    
     return data_mean, data_sigma
